@@ -282,6 +282,15 @@ class ISISGrammar(PVLGrammar):
     group_keywords = {"GROUP": "END_GROUP"}
     object_pref_keywords = ("Object", "End_Object")
     object_keywords = {"OBJECT": "END_OBJECT"}
+    # The tables derived from the two above must be derived again, otherwise
+    # the BEGIN_ keywords of the parent grammar are still reserved words that
+    # start an aggregation which the parser then cannot build.
+    aggregation_keywords = dict()
+    aggregation_keywords.update(group_keywords)
+    aggregation_keywords.update(object_keywords)
+    reserved_keywords = set(PVLGrammar.end_statements)
+    for p in aggregation_keywords.items():
+        reserved_keywords |= set(p)
 
     # A single-line comment that starts with the octothorpe (#) is not part
     # of PVL or ODL, but it is used when ISIS writes out comments.
